@@ -180,8 +180,10 @@ class FuncExec(ExprMixin, CallMixin):
                 names[k] = v
             else:
                 names["cur_" + k] = v
-        return SpecEnv(self.eng, names, st.heap, self.entry_heap, pre=pre, result=result, exc=exc,
-                       ghost=st.ghost, fx=self)
+        env = SpecEnv(self.eng, names, st.heap, self.entry_heap, pre=pre, result=result, exc=exc,
+                      ghost=st.ghost, fx=self)
+        env.params = set(self.entry_names)
+        return env
 
     # ------------------------------------------------------------------
     def run(self):
@@ -682,10 +684,13 @@ class FuncExec(ExprMixin, CallMixin):
             s = ast.With(items=s.items[:1], body=[inner], lineno=s.lineno)
         item = s.items[0]
         out = []
+        self.with_count = getattr(self, "with_count", {})
+        wk = self.with_count.setdefault(id(s), len(self.with_count) + 1)
         for st2, mgr, x in self.ev(item.context_expr, st):
             if x is not None:
                 out.append((st2, ("raise", x)))
                 continue
+            st2.locals["_with%d" % wk] = mgr      # the context manager object, for specifications
             text = ast.unparse(item.context_expr)
             for st3, ev_, x3 in self.call_by_hint(text + ".__enter__", [mgr], {}, st2, s, recv_type=self.static_type(item.context_expr, st2), meth="__enter__"):
                 if x3 is not None:
@@ -828,7 +833,7 @@ class FuncExec(ExprMixin, CallMixin):
             elif n in st.ltypes and n not in extra_locals:
                 pass
         for g in sorted(ghosts):
-            if g.startswith("$lineno"):
+            if g.startswith("$lineno") or g.startswith("$res:") or g.startswith("$callargs") or g not in st.ghost:
                 continue
             old = st.ghost[g]
             if z3.is_expr(old):
